@@ -79,13 +79,13 @@ theorem read_ofBytes (b : Bytes) (n : Nat) :
     simp [h, this]
 
 /-- reading a known prefix off a stream -/
-theorem read_prefix' (a m : Bytes) (k n : Nat) (hn : a.length = n) (h : n ≤ k) :
+theorem read_prefix_n (a m : Bytes) (k n : Nat) (hn : a.length = n) (h : n ≤ k) :
     (⟨a ++ m, k⟩ : Cursor).read n = .ok (a, ⟨m, k - n⟩) := by
   subst hn; simp [Cursor.read, Cursor.canRead, h]
 
 theorem readU8_cons (x : UInt8) (m : Bytes) (k : Nat) (h : 1 ≤ k) :
     (⟨x :: m, k⟩ : Cursor).readU8 = .ok (x.toNat, ⟨m, k - 1⟩) := by
-  have := read_prefix' [x] m k 1 rfl h
+  have := read_prefix_n [x] m k 1 rfl h
   simp only [List.singleton_append] at this
   simp [Cursor.readU8, Cursor.readBE, this, bind, Out.bind, Cursor.beNat]
 
